@@ -85,6 +85,12 @@ def leaf(ctx, path, kind, shape, batch=None):
             ev = torch.linalg.eigvalsh(t.double())
             if n == 1 or bool(((ev[..., 1:] - ev[..., :-1]) > 0.05 * ev[..., -1:]).all()):
                 break
+    elif kind == "psd_spread":  # geometric spectrum 1 .. 1e3 in a random orthonormal basis: iterative solvers with default tolerances are visibly inexact
+        n = shape[-1]
+        q, _ = torch.linalg.qr(torch.randn(full, generator=ctx.gen(name), dtype=torch.float64))
+        lam = torch.logspace(0, 3, n, dtype=torch.float64)
+        t = (q * lam) @ q.mT
+        t = (0.5 * (t + t.mT)).to(ctx.dtype)
     elif kind == "psd_rep":  # c I: positive definite with one repeated eigenvalue
         n = shape[-1]
         t = _randint(ctx, name, tuple(batch) + (1, 1), 2, 6) * torch.eye(n, dtype=ctx.dtype)
@@ -192,7 +198,13 @@ def k_linear_keops(x1, x2, diag=False, **kw):
     return x1 @ x2.mT
 
 
-KFUNCS = {"linear": k_linear, "rbf": k_rbf, "multi": k_multi}
+def k_multi_op(x1, x2, tmat=None, **kw):
+    """as k_multi, the task covariance handed over as a LinearOperator held by keyword"""
+    base = x1 @ x2.mT
+    return bkron(base, tmat.to_dense() if isinstance(tmat, O.LinearOperator) else tmat)
+
+
+KFUNCS = {"linear": k_linear, "rbf": k_rbf, "multi": k_multi, "multi_op": k_multi_op}
 
 
 class UserOp(O.LinearOperator):
@@ -240,7 +252,7 @@ def build(term, ctx, path="r", batch=None):
         n, m = kw["n"], kw.get("m", kw["n"])
         A = leaf(ctx, path, kind, (n, m), batch)
         tri = {"tril": "lower", "triu": "upper"}.get(kind)
-        return Built(O.DenseLinearOperator(A), A, term, psd=kind in ("psd", "psd_rep"), tri=tri)
+        return Built(O.DenseLinearOperator(A), A, term, psd=kind in ("psd", "psd_rep", "psd_spread"), tri=tri)
     if head == "User":
         A = leaf(ctx, path, kw.get("kind", "int"), (kw["n"], kw.get("m", kw["n"])), batch)
         return Built(UserOp(A), A, term, psd=kw.get("kind") == "psd")
@@ -341,16 +353,24 @@ def build(term, ctx, path="r", batch=None):
         return Built(O.ConstantMulLinearOperator(a.op, cc), a.dense * cc[..., None, None], term, psd=a.psd and ck == "pos", pd=a.pd and ck == "pos")
     if head in ("BlockDiag", "BlockInterleaved", "SumBatch"):
         k = kw.get("k", 2)
-        inner = sub(0, batch + (k,))
         cls = {"BlockDiag": O.BlockDiagLinearOperator, "BlockInterleaved": O.BlockInterleavedLinearOperator,
                "SumBatch": O.SumBatchLinearOperator}[head]
-        if head == "BlockDiag":
-            dense = block_diag_dense(inner.dense)
-        elif head == "BlockInterleaved":
-            dense = block_interleaved_dense(inner.dense)
+        bd = kw.get("bd")
+        if bd in ("first", "first_neg"):  # the block dimension leads the base's batch dimensions (block_dim=0 or its negative equivalent)
+            inner = sub(0, (k,) + batch)
+            blocks = inner.dense.movedim(0, -3)
+            built_op = cls(inner.op, block_dim=0 if bd == "first" else -(len(batch) + 3))
         else:
-            dense = inner.dense.sum(-3)
-        return Built(cls(inner.op), dense, term, psd=inner.psd, tri=inner.tri if head != "SumBatch" else None, pd=inner.pd)
+            inner = sub(0, batch + (k,))
+            blocks = inner.dense
+            built_op = cls(inner.op)
+        if head == "BlockDiag":
+            dense = block_diag_dense(blocks)
+        elif head == "BlockInterleaved":
+            dense = block_interleaved_dense(blocks)
+        else:
+            dense = blocks.sum(-3)
+        return Built(built_op, dense, term, psd=inner.psd, tri=inner.tri if head != "SumBatch" else None, pd=inner.pd)
     if head == "BatchRepeat":
         inner = sub(0)
         ib = len(inner.dense.shape[:-2])
@@ -450,10 +470,14 @@ def build(term, ctx, path="r", batch=None):
         elif fn == "multi":
             params["tmat"] = leaf(ctx, path + ".tmat", "psd", (2, 2), pb)
             kwargs["num_outputs_per_input"] = (2, 2)
+        elif fn == "multi_op":  # a sub-operator passed by keyword (task covariance B B^T as a RootLinearOperator); non-tensor keyword
+            # arguments are constants of the kernel (never batch-indexed by the class), so the sub-operator carries no batch dimensions
+            params["tmat"] = O.RootLinearOperator(leaf(ctx, path + ".troot", "tril", (2, 2), ()))
+            kwargs["num_outputs_per_input"] = (2, 2)
         op = O.KernelLinearOperator(x1, x2, covar_func=KFUNCS[fn], **kwargs, **params)
         dense = KFUNCS[fn](x1, x2, **params)
         bs = torch.broadcast_shapes(dense.shape[:-2], batch, pb)
-        return Built(op, dense.expand(*bs, *dense.shape[-2:]), term, psd=bool(kw.get("sym")) and fn in ("rbf", "linear", "multi"),
+        return Built(op, dense.expand(*bs, *dense.shape[-2:]), term, psd=bool(kw.get("sym")) and fn in ("rbf", "linear", "multi", "multi_op"),
                      pd=False)  # RBF Gram matrices on the integer grid are too ill-conditioned to count as "comfortably PD"
     if head == "KeOps":
         n1, n2, d = kw["n"], kw.get("m", kw["n"]), kw.get("d", 2)
@@ -537,6 +561,9 @@ def catalogue(n=3, include_rect=True):
         "BlockDiag3": ["BlockDiag", {"k": 3}, D(2, kind="psd")],
         "BlockInterleaved": ["BlockInterleaved", {"k": 2}, P], "BlockInterleaved3": ["BlockInterleaved", {"k": 3}, D(3, kind="psd")],
         "SumBatch": ["SumBatch", {"k": 2}, P],
+        # a block dimension that is not the last batch dimension of the base
+        "BlockDiagDim0": ["BlockDiag", {"k": 2, "bd": "first"}, P], "BlockInterleavedDim0": ["BlockInterleaved", {"k": 2, "bd": "first_neg"}, P],
+        "SumBatchDim0": ["SumBatch", {"k": 2, "bd": "first"}, D(n)],
         "BatchRepeat": ["BatchRepeat", {"r": 2}, P], "BatchRepeat2": ["BatchRepeat", {"r": 2, "lead": True}, D(n)],
         "CatRows": ["Cat", {"dim": -2}, D(2, n), D(n)], "CatCols": ["Cat", {"dim": -1}, D(n, 2), D(n)],
         "Interp": ["Interp", {"mode": "general"}, P], "InterpSym": ["Interp", {"mode": "sym", "m": n + 1}, P],
@@ -550,6 +577,7 @@ def catalogue(n=3, include_rect=True):
         "KernelLin": ["Kernel", {"fn": "linear", "n": n, "m": n + 1}], "KernelLinSym": ["Kernel", {"fn": "linear", "n": n, "sym": True}],
         "KernelRBF": ["Kernel", {"fn": "rbf", "n": n, "sym": True}], "KernelMulti": ["Kernel", {"fn": "multi", "n": 2, "m": 3}],
         "KernelMultiSym": ["Kernel", {"fn": "multi", "n": 2, "sym": True}],
+        "KernelMultiOpKw": ["Kernel", {"fn": "multi_op", "n": 2, "m": 3}],
         "KeOps": ["KeOps", {"n": n, "m": n + 1}],
     }
     if include_rect:
